@@ -708,6 +708,9 @@ def reader_model(facts, rep, R2, rd):
                     if not all(x in lp["blocks"] for x in p_.blocks):
                         continue
                     stores = [e for e in p_.events if e["k"] == "call" and e["callee"] and e["callee"].rsplit("::", 1)[-1] in ("write_string", "write_pointer", "write_c_string")]
+                    # ... or put straight into the archive's text / pointer / c-string map (`archive.text.insert(a, s)`)
+                    stores += [e for e in p_.events if e["k"] == "call" and e["callee"] and e["callee"].rsplit("::", 1)[-1] in ("insert", "push", "entry", "extend") and e["args"] and any(
+                        x[0] == "field" and x[2] in ("text", "pointers", "cstrings") and len(x) > 4 and str(x[4]).endswith("BinArchive") for x in walk(e["args"][0]))]
                     if not stores:
                         conds_ = [c_ for c_ in p_.conds if c_[4] == "bool"]
                         dropped = "; ".join(fmt(c_[1])[:50] for c_ in conds_[-2:]) or "unconditionally"
